@@ -354,7 +354,7 @@ theorem mem_ids_search (T : Tuning S) (db : Db) (q : Bytes) (o : Opts S) (hf : o
         have hr0ids : (r0.map (·.1)).Perm (m.map (·.1)) := by
           rw [← hr0, ← hcol]; exact sortDesc_map_perm _ _ _
         have hwin : r0.length ≤ max (effLimit o * rerankMult) rerankMin := by
-          have : effLimit o ≤ effLimit o * rerankMult := by unfold rerankMult; omega
+          have : effLimit o ≤ effLimit o * rerankMult := by unfold rerankMult Gen.SearchParams.rerankMult; omega
           omega
         have h1 := rerank_ids_perm_of_le T (T.normQ q) (effLimit o) r0 hwin
         have h2 := cascade_ids_perm (T.nlp (T.normQ q)) (rerank T (T.normQ q) (effLimit o) r0)
